@@ -74,12 +74,16 @@ func bkGenMain(args []string) int {
 	limit := fs.Int64("limit", -1, "RLIMIT_FSIZE for this process (bytes); SIGXFSZ ignored so writes fail with EFBIG")
 	older := fs.Bool("older", false, "store an older snapshot while newer versions exist")
 	gcduring := fs.Bool("gcduring", false, "close older snapshots and force GC while the backup is scanning (delta mode exercises the delta log)")
+	nwr := fs.Int("writers", 2, "writers of the stored instance (> NumCPU: more delta files than data shards)")
 	fs.Parse(args)
 	if *blk > 0 {
 		nitro.DiskBlockSize = *blk
 	}
 	rnd := rand.New(rand.NewSource(*seed))
-	d := nh.Open(o.cfg(2))
+	if *nwr < 2 {
+		*nwr = 2
+	}
+	d := nh.Open(o.cfg(*nwr))
 	nk := *items
 	put := func(w, k int) { d.W[w].Put2(d.Item(k, 1+rnd.Intn(3))) }
 	// history: load, snapshot, churn (deletes + re-inserts), snapshot ...
